@@ -184,7 +184,10 @@ class PyEval:
         return True
 
     def _fork(self, p: PPath, conds=(), events=(), end=('fall',), env=None, node=None) -> PPath:
-        return PPath(p.conds + list(conds), p.events + list(events), end, dict(env if env is not None else p.env), node)
+        # a decision is also recorded in the event list (kind 'cond'), after the events of evaluating its test: rules that ask
+        # "was X checked BEFORE effect Y" read the order off the events instead of off line numbers
+        marks = [PEvent('cond', c, node=node) for c in conds]
+        return PPath(p.conds + list(conds), p.events + list(events) + marks, end, dict(env if env is not None else p.env), node)
 
     def _stmt(self, st, p: PPath) -> list[PPath]:
         if isinstance(st, ast.Expr):
